@@ -4,6 +4,7 @@ package main
 // assumed schemas of external functions (stdlib.go).
 
 import (
+	"sort"
 	"fmt"
 	"go/types"
 	"math/big"
@@ -174,7 +175,7 @@ func (x *Exec) inlineCall(st *State, pk *Pkg, fn *ssa.Function, fc *FuncContract
 			for k, v := range r.St.Ghost {
 				ghost[k] = v
 			}
-			continue
+			continue // (plain copies: order irrelevant)
 		}
 		for j := range merged {
 			if !sameVal(merged[j], r.Results[j]) {
@@ -183,7 +184,8 @@ func (x *Exec) inlineCall(st *State, pk *Pkg, fn *ssa.Function, fc *FuncContract
 		}
 		H = o.Ite(guards[i], r.St.H, H)
 		A = o.Ite(guards[i], r.St.Alloc, A)
-		for k, v := range r.St.Cells {
+		for _, k := range sortedCellKeys(r.St.Cells) {
+			v := r.St.Cells[k]
 			if w, ok := cells[k]; ok {
 				if !sameVal(v, w) {
 					cells[k] = x.iteVal(guards[i], v, w)
@@ -192,7 +194,8 @@ func (x *Exec) inlineCall(st *State, pk *Pkg, fn *ssa.Function, fc *FuncContract
 				cells[k] = v
 			}
 		}
-		for k, v := range r.St.Ghost {
+		for _, k := range sortedGhostKeys(r.St.Ghost) {
+			v := r.St.Ghost[k]
 			if w, ok := ghost[k]; ok {
 				if !sameVal(v, w) {
 					ghost[k] = x.iteVal(guards[i], v, w)
@@ -621,7 +624,13 @@ func (x *Exec) invokeDispatch(st *State, iv IfaceVal, c *ssa.CallCommon, args []
 	var outs []*State
 	var results []Val
 	var conds []*Term
-	for id, pay := range iv.Pay {
+	payIDs := make([]int, 0, len(iv.Pay))
+	for id := range iv.Pay {
+		payIDs = append(payIDs, id)
+	}
+	sort.Ints(payIDs) // fixed order: deterministic scripts
+	for _, id := range payIDs {
+		pay := iv.Pay[id]
 		ct := byID[id]
 		if ct == nil {
 			x.fail("dispatch: unknown dynamic type id %d", id)
@@ -656,7 +665,8 @@ func (x *Exec) invokeDispatch(st *State, iv IfaceVal, c *ssa.CallCommon, args []
 		}
 		st.H = o.Ite(conds[i], outs[i].H, st.H)
 		st.Alloc = o.Ite(conds[i], outs[i].Alloc, st.Alloc)
-		for k, v := range outs[i].Cells {
+		for _, k := range sortedCellKeys(outs[i].Cells) {
+			v := outs[i].Cells[k]
 			if w, ok := st.Cells[k]; ok && !sameVal(v, w) {
 				st.Cells[k] = x.iteVal(conds[i], v, w)
 			}
@@ -913,7 +923,13 @@ func (x *Exec) errAsLookup(e *SpecEnv, ev ErrVal, tt string) *Term {
 	}
 	var hits []*Term
 	found := false
-	for k, t := range ev.As {
+	asKeys := make([]string, 0, len(ev.As))
+	for k := range ev.As {
+		asKeys = append(asKeys, k)
+	}
+	sort.Strings(asKeys) // fixed order: deterministic scripts
+	for _, k := range asKeys {
+		t := ev.As[k]
 		if k == want || (!strings.Contains(base, "[") && strings.HasPrefix(k, want+"[")) {
 			hits = append(hits, t)
 			found = true
